@@ -175,11 +175,17 @@ impl fmt::Display for Error {
             write!(f, "\n--- ")?;
 
             if let Some(span) = chunk.debug_info.get_source_span(*instruction) {
-                f.write_str(&format_source_excerpt(
-                    &chunk.debug_info.source,
-                    &span,
-                    chunk.path.as_deref(),
-                ))?;
+                let source = &chunk.debug_info.source;
+                if (span.start.line as usize) < source.lines().count() {
+                    f.write_str(&format_source_excerpt(source, &span, chunk.path.as_deref()))?;
+                } else {
+                    // There's no source text to quote (e.g. the chunk was compiled from an AST),
+                    // so only the position is shown.
+                    if let Some(path) = chunk.path.as_deref() {
+                        write!(f, "{path} - ")?;
+                    }
+                    write!(f, "{}:{}", span.start.line + 1, span.start.column + 1)?;
+                }
 
                 continue;
             }
